@@ -23,7 +23,8 @@ EXPLANATION = (
     "list, left fold) and no operator reversal unless explicitly requested; (D5) gate embedding helpers: basis "
     "bitstring is MSB-first, the numeric and the symbolic dense-vector builders put state[0] on the most significant "
     "position (positional-weight analysis for index formulas), and both agree; (D6) the simulator wires these "
-    "functions together without extra conversions."
+    "functions together without extra conversions. "
+    "(D1x) every exit of an element-wise bit-sequence converter gives the bits the same orientation (order-preserving array plumbing counts as parity 0); strings freshly formatted from drawn amplitude indices are MSB-first, i.e. lack the key listing's reversal."
 )
 RULE_TEXT = "instances = conversion functions (parity each), conversion paths (sum of parities), call-edge and alignment obligations; distinct by (rule, function/path)"
 ASSUMPTIONS = [
